@@ -2,8 +2,11 @@
 package main
 
 import (
+	"strings"
 	"fmt"
 
+	"github.com/pentops/j5/internal/zzverif/gbridge"
+	"github.com/pentops/j5/internal/zzverif/gj5s"
 	"github.com/pentops/j5/internal/zzverif/gpb"
 	"github.com/pentops/j5/internal/zzverif/vk"
 	"github.com/pentops/j5/lib/j5codec"
@@ -53,6 +56,11 @@ func mk(m *gpb.Message, k gpb.Kind, seen map[*gpb.Message]bool) bool {
 func run(r *vk.Runner) {
 	cases := gpb.SingleFieldCases()
 	cases = append(cases, gpb.PairCases()...)
+	gj5s.Silence()
+	cases = append(cases, gbridge.Cases(gbridge.Programs())...)
+	if !r.Quick() {
+		cases = append(cases, gpb.DeepCases()...)
+	}
 	for _, c := range cases {
 		if r.Stopped() {
 			return
@@ -112,6 +120,12 @@ func run(r *vk.Runner) {
 }
 
 func familyOf(c *gpb.Case) string {
+	if strings.HasPrefix(c.ID, "j5s/") {
+		return "j5s-compiled"
+	}
+	if strings.HasPrefix(c.ID, "deep/") {
+		return "deep"
+	}
 	if c.Under == nil {
 		return "pairs"
 	}
@@ -119,6 +133,12 @@ func familyOf(c *gpb.Case) string {
 }
 
 func kindOf(c *gpb.Case) string {
+	if strings.HasPrefix(c.ID, "j5s/") {
+		if c.Under == nil {
+			return "j5s:empty"
+		}
+		return "j5s:" + c.Under.Kind.String()
+	}
 	if c.Under == nil {
 		return "pair"
 	}
